@@ -359,4 +359,18 @@ CLAIMS = {
                 "generic arguments are only covariantly related (list[Circle] for list[Shape]); the providers differ for such "
                 "requests, for unions sharing only None, and for primitive requests (rank provider returns nothing by design).",
     },
+    "C06": {
+        "category": "other",
+        "text": "Bounded stand-in (not a proof): the real ControlDependenceGraph.compute, get_control_dependencies and "
+                "is_control_dependent_on_root are compared with the statement's definition - an independent set-based "
+                "post-dominator fixed point over the same (augmented) CFG - on (1) every control-flow shaped digraph on 1-3 basic "
+                "blocks (thorough: plus a seeded seventh of those on 4; out-degree <= 2, two-way nodes labelled True/False, all "
+                "blocks reachable and reaching the exit, self-loops included) built directly as CFG objects, and (2) all code "
+                "objects of a 24-function template module and of bisect and heapq (thorough: textwrap, dis) through the real "
+                "CFG.from_bytecode: single entry/exit, reachability, edge set, edge labels and root dependence must agree.",
+        "technique": "bounded contract check, exhaustive over small graphs (the construction is networkx calls - immediate "
+                     "dominators, lowest common ancestors - end to end; an SMT-backed generator has no induction principle for "
+                     "graphs)",
+        "note": "no unbounded claim; the oracle (40 lines) is trusted; Python 3.12 bytecode only.",
+    },
 }
